@@ -351,7 +351,16 @@ def scan_fns(text):
                 end = j
                 break
             if ch == '{':
-                end = ex.match_brace(text, j, skip)
+                c = ex.match_brace(text, j, skip)
+                # a brace group inside the contract (`==> { &&& ... },`) is followed by `,` or an
+                # operator; the function body is followed by the next item
+                k = c + 1
+                while k < len(text) and (text[k].isspace() or skip[k]):
+                    k += 1
+                if k < len(text) and text[k] in ',.?)]&|=<>+-*/:;' :
+                    j = c + 1
+                    continue
+                end = c
                 break
             if ch in '([':
                 j = ex.match_brace(text, j, skip) + 1
